@@ -358,10 +358,25 @@ class Prover:
             for s in subterms(f):
                 if is_term(s) and s[0] == "const" and isinstance(s[1], (int, float)) and not isinstance(s[1], bool):
                     consts.add(s)
+        # an element of a list of numeric literals is at least the list's minimum
+        for f in self.facts:
+            if f[0] == "elem_of" and f[2][0] in ("list", "tuple") and f[2][1] and all(x[0] == "const" and isinstance(x[1], (int, float)) for x in f[2][1]):
+                add(f[1], K(min(x[1] for x in f[2][1])), False)
         cs = sorted(consts, key=lambda c: c[1], reverse=True)
         for hi, lo in zip(cs, cs[1:]):
             add(hi, lo, hi[1] > lo[1])
         self.consts = cs
+        # scaling a non-negative quantity down: a / c (c >= 1) and a * c (0 <= c <= 1) are <= a
+        scaled = set()
+        for f in self.facts:
+            for s2 in subterms(f):
+                if is_term(s2) and s2[0] == "bin" and s2[1] in ("Div", "Mult") and s2[3][0] == "const" and isinstance(s2[3][1], (int, float)):
+                    scaled.add(s2)
+        for t in scaled:
+            c = t[3][1]
+            if (t[1] == "Div" and c >= 1) or (t[1] == "Mult" and 0 <= c <= 1):
+                if self._reach(t[2], K(0)) is not None:
+                    add(t[2], t, False)
 
     def _reach(self, a, b) -> Optional[bool]:
         """None if a >= b is not derivable; else True iff a > b derivable (strict)."""
